@@ -303,9 +303,19 @@ def vf2(ctx, c):
     wb = repo.method("SourceFile", "write_binary_contents")
     t = U(wb.node)
     ps = [p for p in wb.params if p not in ("self", "cls")]
-    good = re.search(r"\.write\(bytearray\(%s\)\)" % re.escape(ps[1]), t) is not None if len(ps) > 1 else False
-    c.check(good, "SourceFile.write_binary_contents:content", "writes bytearray(buffer), all of it", "write call not recognised",
-            "write_binary_contents does not write the whole buffer it was given", repo.loc(wb, wb.node))
+    m_c = re.search(r"\.write\((.*)\)", t)
+    if m_c is None or len(ps) < 2:
+        c.undecided("SourceFile.write_binary_contents:content", "write-call-not-recognised", "", repo.loc(wb, wb.node))
+    else:
+        arg = m_c.group(1)
+        whole = arg in ("bytearray(%s)" % ps[1], "bytes(%s)" % ps[1], ps[1])
+        partial = re.search(r"%s\[[^\]]*:[^\]]*\]" % re.escape(ps[1]), arg) is not None
+        if whole:
+            c.ok("SourceFile.write_binary_contents:content", "writes the whole buffer", repo.loc(wb, wb.node))
+        elif partial:
+            c.finding("SourceFile.write_binary_contents:content", "writes %s" % arg, "write_binary_contents writes %s, not the whole buffer it was given" % arg, repo.loc(wb, wb.node))
+        else:
+            c.undecided("SourceFile.write_binary_contents:content", "written-expression-not-recognised", arg, repo.loc(wb, wb.node))
     # caller chain: write_binary_contents <- SourceFile.write_file <- VirtualFile.save_virtual_file only
     callers = []
     for f in repo.all_funcs():
@@ -319,12 +329,29 @@ def vf2(ctx, c):
         for n in ast.walk(f.node):
             if isinstance(n, ast.Call) and re.search(r"(^|\.)write_file$", U(n.func)) and f.q != "SourceFile.write_file":
                 callers2.append(f.q)
-    c.check(sorted(set(callers2)) == ["VirtualFile.save_virtual_file"], "write_file:callers", "called by VirtualFile.save_virtual_file only", "called by %s" % sorted(set(callers2)),
-            "SourceFile.write_file is called from %s: a write outside save_virtual_file bypasses the overwrite guard" % sorted(set(callers2)), "cocoasm/virtualfiles/source_file.py")
+    def only_from_save(q, seen=()):
+        if q == "VirtualFile.save_virtual_file":
+            return True
+        if q in seen or not q.startswith("VirtualFile."):
+            return False
+        cs = []
+        name = q.split(".")[1]
+        for f2 in repo.all_funcs():
+            for n2 in ast.walk(f2.node):
+                if isinstance(n2, ast.Call) and re.search(r"(^|\.)%s$" % re.escape(name), U(n2.func)) and f2.q != q:
+                    cs.append(f2.q)
+        return bool(cs) and all(only_from_save(x, seen + (q,)) for x in set(cs))
+    bad_callers = sorted(x for x in set(callers2) if not only_from_save(x))
+    c.check(not bad_callers and callers2, "write_file:callers", "reached only through VirtualFile.save_virtual_file", "called by %s" % bad_callers,
+            "SourceFile.write_file is called from %s: a write outside save_virtual_file bypasses the overwrite guard" % bad_callers, "cocoasm/virtualfiles/source_file.py")
     wf = repo.method("SourceFile", "write_file")
     t = U(wf.node)
-    good = re.search(r"self\.write_binary_contents\(self\.file_name, self\.buffer\)", t) is not None
-    c.check(good, "SourceFile.write_file", "writes its own buffer to its own name", "shape changed", "SourceFile.write_file does not write self.buffer to self.file_name", repo.loc(wf, wf.node))
+    m_w = re.search(r"self\.write_binary_contents\(([^)]*)\)", t)
+    if m_w is None:
+        c.undecided("SourceFile.write_file", "shape-not-recognised", "", repo.loc(wf, wf.node))
+    else:
+        c.check(m_w.group(1) == "self.file_name, self.buffer", "SourceFile.write_file", "writes its own buffer to its own name", "writes (%s)" % m_w.group(1),
+                "SourceFile.write_file writes (%s) instead of its own buffer to its own file name" % m_w.group(1), repo.loc(wf, wf.node))
 
 
 def vf4(ctx, c):
@@ -341,18 +368,46 @@ def vf4(ctx, c):
             "VirtualFile.file_exists is assigned at %s; it must start False and become True exactly when the target path exists" % got, C.module.rel)
     ov = repo.method(VF, "open_virtual_file")
     where = repo.loc(ov, ov.node)
-    g = CFG(ov.node)
+    from ..inline import flatten
+    ov_flat = flatten(repo, ov, depth=2, only={m_ for m_ in C.methods if m_ not in ("get_coco_files",)})
+    g = CFG(ov_flat)
     sets = g.find(lambda k, n: k == "stmt" and isinstance(n, ast.Assign) and U(n.targets[0]) == "self.file_exists")
-    tests = g.find(lambda k, n: k == "test" and "os.path.exists" in U(n) and "get_file_name" in U(n))
-    ok = bool(sets) and bool(tests) and all(s not in g.reachable(avoid_edges=[(t, True) for t in tests]) for s in sets)
-    c.check(ok, "open_virtual_file:exists", "file_exists = True only under os.path.exists(target)", "assignment not under the existence test",
-            "open_virtual_file sets file_exists outside the os.path.exists test of the target path", where)
+    tests = g.find(lambda k, n: k == "test" and "os.path.exists" in U(n))
+    def exists_label(t):
+        n_ = g.nodes[t][2]
+        return not (isinstance(n_, ast.UnaryOp) and isinstance(n_.op, ast.Not))
+    ok = bool(sets) and bool(tests) and all(s not in g.reachable(avoid_edges=[(t, exists_label(t)) for t in tests]) for s in sets)
+    extra = []
+    for t in tests:
+        n_ = g.nodes[t][2]
+        inner = n_.operand if isinstance(n_, ast.UnaryOp) and isinstance(n_.op, ast.Not) else n_
+        if isinstance(inner, ast.BoolOp) and isinstance(inner.op, ast.And):
+            extra += [U(v) for v in inner.values if "os.path.exists" not in U(v)]
+    if ok and extra:
+        c.finding("open_virtual_file:exists", "file_exists is set only if the target exists and %s" % " and ".join(extra),
+                  "open_virtual_file treats the target as existing only when `%s` also holds: an existing file failing that test is taken for a new one and overwritten without --append" % " and ".join(extra), where)
+    elif ok:
+        c.ok("open_virtual_file:exists", "file_exists = True only under os.path.exists(target)", where)
+    elif sets and not tests and "exists" not in U(ov_flat):
+        c.finding("open_virtual_file:exists", "assignment not under an existence test", "open_virtual_file sets file_exists without testing os.path.exists of the target path", where)
+    elif sets and tests:
+        c.finding("open_virtual_file:exists", "assignment reachable without passing the existence test", "open_virtual_file sets file_exists outside the os.path.exists test of the target path", where)
+    else:
+        c.undecided("open_virtual_file:exists", "shape-not-recognised", "", where)
     # if the path exists, file_exists is set on every path before anything can raise (so that save refuses to overwrite even after a failed open is caught)
     # kind mismatch raises
     mism = g.find(lambda k, n: k == "test" and "virtual_file_type" in U(n) and "!=" in U(n))
     ok = bool(mism) and all(g.only_raises_after(t, True) for t in mism)
-    c.check(ok, "open_virtual_file:kind-mismatch", "an existing file of another kind raises", "no raise on kind mismatch",
-            "open_virtual_file does not refuse an existing target whose content is of a different container kind than requested", where)
+    eqt = g.find(lambda k, n: k == "test" and "virtual_file_type" in U(n) and "==" in U(n))
+    ok = ok or (bool(eqt) and all(g.only_raises_after(t, False) for t in eqt))
+    raises = g.find(lambda k, n: k == "raise")
+    if ok:
+        c.ok("open_virtual_file:kind-mismatch", "an existing file of another kind raises", where)
+    elif not raises:
+        c.finding("open_virtual_file:kind-mismatch", "no raise on kind mismatch",
+                  "open_virtual_file does not refuse an existing target whose content is of a different container kind than requested", where)
+    else:
+        c.undecided("open_virtual_file:kind-mismatch", "shape-not-recognised", "", where)
     # a truthiness test on the requested kind is only sound if no kind is falsy (plain Enum members are always truthy)
     for t_ in [g.nodes[m_][2] for m_ in mism]:
         vals = t_.values if isinstance(t_, ast.BoolOp) else [t_]
@@ -373,7 +428,7 @@ def vf4(ctx, c):
     # read_file before get_coco_files; the list is replaced by the files read
     t = U(ov.node)
     good = re.search(r"self\.source_file\.read_file\(\)\s+self\.coco_file_list, (\w+) = self\.get_coco_files\(\)", t) is not None
-    c.check(good, "open_virtual_file:load", "reads the target then lists its files", "shape changed", "open_virtual_file does not read the existing image and store the files it lists", where)
+    c.shape(good, "open_virtual_file:load", "reads the target then lists its files", "load sequence not recognised", where)
     # VF-6 sniff order
     gc = repo.method(VF, "get_coco_files")
     order = []
@@ -394,11 +449,24 @@ def vf4(ctx, c):
                 okp = m is not None and order and KINDS.get(m.group(2)) == order[-1]
                 c.check(bool(okp), "get_coco_files:%s:kind" % (order[-1] if order else "?"), "listing paired with its own kind", "returns %s" % U(r.value),
                         "get_coco_files returns %s for a %s" % (U(r.value), order[-1] if order else "?"), repo.loc(gc, r))
-    c.check(order == ["DiskFile", "CassetteFile"], "get_coco_files:order", "disk, then cassette, then binary", "order %s" % order,
-            "get_coco_files sniffs in order %s; each later sniffer is more permissive, so the order must be disk, cassette, binary" % order, repo.loc(gc, gc.node))
+    if not order:
+        first = {}
+        for n in ast.walk(gc.node):
+            if isinstance(n, ast.Name) and n.id in ("DiskFile", "CassetteFile"):
+                first.setdefault(n.id, (n.lineno, n.col_offset))
+        order = [k for k, _ in sorted(first.items(), key=lambda kv: kv[1])]
+    if len(order) < 2:
+        c.undecided("get_coco_files:order", "sniffing-shape-not-recognised", str(order), repo.loc(gc, gc.node))
+    else:
+        c.check(order == ["DiskFile", "CassetteFile"], "get_coco_files:order", "disk, then cassette, then binary", "order %s" % order,
+                "get_coco_files sniffs in order %s; each later sniffer is more permissive, so the order must be disk, cassette, binary" % order, repo.loc(gc, gc.node))
     last = body_without_doc(gc.node)[-1]
-    c.check(isinstance(last, ast.Return) and U(last.value) == "([], VirtualFileType.BINARY)", "get_coco_files:fallback", "anything else is a raw binary with no files", "fallback %s" % U(last),
-            "get_coco_files falls back to %s" % U(last), repo.loc(gc, last))
+    if isinstance(last, ast.Return) and re.fullmatch(r"\(\[\], VirtualFileType\.BINARY\)", U(last.value)):
+        c.ok("get_coco_files:fallback", "anything else is a raw binary with no files", repo.loc(gc, last))
+    elif isinstance(last, ast.Return) and re.fullmatch(r"\(.*, VirtualFileType\.(\w+)\)", U(last.value)):
+        c.finding("get_coco_files:fallback", "fallback %s" % U(last.value), "get_coco_files falls back to %s" % U(last.value), repo.loc(gc, last))
+    else:
+        c.undecided("get_coco_files:fallback", "shape-not-recognised", U(last)[:60], repo.loc(gc, last))
     # known finding: a cassette is recognised by absence of a header
     lf = repo.method("CassetteFile", "list_files", inherited=False)
     has_raise = any(isinstance(n, ast.Raise) for n in ast.walk(lf.node))
@@ -435,7 +503,14 @@ def vf3(ctx, c):
     repo = ctx.repo
     n_sites = 0
     for rel in ("assembler.py", "file_util.py"):
-        fn = repo.func(rel, "main")
+        fn0 = repo.func(rel, "main")
+        from ..inline import flatten
+
+        class _F:
+            pass
+        fn = _F()
+        fn.node = flatten(repo, fn0, depth=2)
+        fn.module = fn0.module
         for site in _save_sites(fn):
             var = site.targets[0].id
             blk = _block_of(fn.node, site)
@@ -454,7 +529,7 @@ def vf3(ctx, c):
             src = U(call.args[0]) if call.args else ""
             ms = re.fullmatch(r"SourceFile\(args\.(\w+), file_type=SourceFileType\.BINARY\)", src)
             switch = ms.group(1) if ms else None
-            where = repo.loc(fn, site)
+            where = "%s:%d" % (rel, getattr(site, "lineno", 0))
             name = "%s:%s" % (rel, switch or var)
             if switch in ("to_bin", "to_cas", "to_dsk"):
                 n_sites += 1
@@ -472,7 +547,7 @@ def vf3(ctx, c):
                     pos = [U(a) for a in sv.args]
                     am = kw.get("append_mode", pos[0] if pos else None)
                     c.check(am == "args.append", name + ":append", "append_mode = args.append", "append_mode = %s" % am,
-                            "%s: --%s saves with append_mode=%s instead of the --append switch" % (rel, switch, am), repo.loc(fn, sv))
+                            "%s: --%s saves with append_mode=%s instead of the --append switch" % (rel, switch, am), where)
             elif rel == "file_util.py" and "host_filename" in src:
                 n_sites += 1
                 names = [a for a, _ in seq]
@@ -486,11 +561,19 @@ def cli1(ctx, c):
     repo = ctx.repo
     fn = repo.func("assembler.py", "main")
     where = repo.loc(fn, fn.node)
+    from ..inline import flatten
+    orig_fn_node = fn.node
+    main_flat = flatten(repo, fn, depth=2)
+
+    class _F:
+        pass
+    fnx = _F()
+    fnx.node = main_flat
     prog = None
-    for n in ast.walk(fn.node):
+    for n in ast.walk(main_flat):
         if isinstance(n, ast.Assign) and isinstance(n.value, ast.Call) and U(n.value.func) == "Program":
             prog = U(n.targets[0])
-    cf = [n for n in ast.walk(fn.node) if isinstance(n, ast.Assign) and isinstance(n.value, ast.Call) and U(n.value.func) == "CoCoFile"]
+    cf = [n for n in ast.walk(main_flat) if isinstance(n, ast.Assign) and isinstance(n.value, ast.Call) and U(n.value.func) == "CoCoFile"]
     if prog is None or len(cf) != 1:
         c.undecided("assembler.main", "Program/CoCoFile construction not unique", "", where)
         return
@@ -505,22 +588,33 @@ def cli1(ctx, c):
         c.check(val == v, "assembler.main:CoCoFile.%s" % k, "%#04x" % v, "%s = %s" % (k, U(node) if node is not None else None),
                 "assembler.py marks the saved file with %s=%s; a machine-language binary file is %s=%02X" % (k, U(node) if node is not None else None, k, v), repo.loc(fn, cf[0]))
     # process() runs on that program with the lines read from args.filename
-    pc = [n for n in ast.walk(fn.node) if isinstance(n, ast.Call) and U(n.func) == "%s.process" % prog]
+    pc = [n for n in ast.walk(main_flat) if isinstance(n, ast.Call) and U(n.func) == "%s.process" % prog]
     c.check(len(pc) == 1 and re.fullmatch(r"\w+\.get_buffer\(\)", U(pc[0].args[0])) is not None, "assembler.main:process", "the same Program assembles the source read", "process calls %s" % [U(x) for x in pc],
             "assembler.py does not assemble the source it read with the Program it saves", where)
     # per switch blocks
-    blocks = [n for n in body_without_doc(fn.node) if isinstance(n, ast.If) and re.fullmatch(r"args\.to_(bin|cas|dsk)", U(n.test))]
+    blocks = [n for n in body_without_doc(main_flat) if isinstance(n, ast.If) and re.fullmatch(r"args\.to_(bin|cas|dsk)", U(n.test))]
     c.floor("save blocks", len(blocks), 3)
     for b in blocks:
         sw = U(b.test).split(".")[1]
         adds = _calls(b, ".add_coco_file")
-        c.check(len(adds) == 1 and [U(a) for a in adds[0].args] == [cfvar], "assembler.main:%s:adds" % sw, "adds the assembled file", "adds %s" % [U(a) for a in adds],
-                "assembler.py --%s adds %s instead of the assembled program" % (sw, [U(a) for a in adds]), repo.loc(fn, b))
+        if not adds:
+            c.undecided("assembler.main:%s:adds" % sw, "add-call-not-recognised", "", repo.loc(fn, b))
+        else:
+            c.check(len(adds) == 1 and [U(a) for a in adds[0].args] == [cfvar], "assembler.main:%s:adds" % sw, "adds the assembled file", "adds %s" % [U(a) for a in adds],
+                    "assembler.py --%s adds %s instead of the assembled program" % (sw, [U(a) for a in adds]), repo.loc(fn, b))
         if sw in ("to_cas", "to_dsk"):
-            first = b.body[0]
-            good = isinstance(first, ast.If) and U(first.test) == "not %s.name" % cfvar and isinstance(first.body[-1], ast.Return)
-            c.check(good, "assembler.main:%s:no-name" % sw, "without a name nothing is created", "first statement %s" % U(first)[:50],
-                    "assembler.py --%s is not guarded by the no-name check: a file without a name would be created" % sw, repo.loc(fn, b))
+            gb = CFG(ast.FunctionDef(name="b", args=main_flat.args, body=b.body, decorator_list=[], lineno=b.lineno))
+            ctor_nodes = gb.find(lambda k, n: k == "stmt" and "VirtualFile(" in U(n))
+            name_tests = gb.find(lambda k, n: k == "test" and re.fullmatch(r"not %s\.name|%s\.name" % (re.escape(cfvar), re.escape(cfvar)), U(n)) is not None)
+            guarded = bool(ctor_nodes) and bool(name_tests) and all(
+                any(x not in gb.reachable(avoid_edges=[(t, not U(gb.nodes[t][2]).startswith("not"))]) for t in name_tests) for x in ctor_nodes)
+            if guarded:
+                c.ok("assembler.main:%s:no-name" % sw, "without a name nothing is created", repo.loc(fn, b))
+            elif ctor_nodes and not name_tests and ".name" not in U(b):
+                c.finding("assembler.main:%s:no-name" % sw, "no test of the file name before the container is built",
+                          "assembler.py --%s is not guarded by the no-name check: a file without a name would be created" % sw, repo.loc(fn, b))
+            else:
+                c.undecided("assembler.main:%s:no-name" % sw, "guard-shape-not-recognised", "", repo.loc(fn, b))
         tries = [n for n in b.body if isinstance(n, ast.Try)]
         if tries:
             for h in tries[0].handlers:
@@ -528,100 +622,143 @@ def cli1(ctx, c):
                 c.check(reports, "assembler.main:%s:handler" % sw, "the error is shown to the user", "handler does not print the error",
                         "assembler.py --%s swallows the save error without telling the user why the target was left alone" % sw, repo.loc(fn, h))
     # CLI-2: process() is wrapped; handlers exit non-zero; saves come after
-    tr = next((n for n in body_without_doc(fn.node) if isinstance(n, ast.Try) and any(U(x.func).endswith(".process") for x in ast.walk(n) if isinstance(x, ast.Call))), None)
+    tr = next((n for n in body_without_doc(main_flat) if isinstance(n, ast.Try) and any(U(x.func).endswith(".process") for x in ast.walk(n) if isinstance(x, ast.Call))), None)
     if tr is None:
         c.finding("assembler.main:process-handler", "process() is not wrapped", "assembler.py calls Program.process outside any handler", where)
     else:
-        caught = sorted(U(h.type) for h in tr.handlers if h.type is not None)
-        c.check(set(caught) >= {"ParseError", "TranslationError"}, "assembler.main:process-handler", "catches ParseError and TranslationError", "catches %s" % caught,
+        caught = sorted({U(e) for h in tr.handlers if h.type is not None for e in (h.type.elts if isinstance(h.type, ast.Tuple) else [h.type])})
+        c.check(set(caught) >= {"ParseError", "TranslationError"} or "Exception" in caught, "assembler.main:process-handler", "catches ParseError and TranslationError", "catches %s" % caught,
                 "assembler.py catches %s around process()" % caught, repo.loc(fn, tr))
-        te = repo.func("assembler.py", "throw_error")
+        te = repo.func("assembler.py", "throw_error") if "throw_error" in repo.module("assembler.py").funcs else None
+        if te is None:
+            c.undecided("throw_error:exit", "function-not-found", "", where)
+            return
         for h in tr.handlers:
             calls = [U(x.func) for x in ast.walk(h) if isinstance(x, ast.Call)]
-            c.check("throw_error" in calls or "sys.exit" in calls, "assembler.main:handler:%s" % U(h.type), "ends in a non-zero exit", "handler calls %s" % calls,
-                    "the %s handler does not terminate the command" % U(h.type), repo.loc(fn, h))
+            if "throw_error" in calls or "sys.exit" in calls:
+                c.ok("assembler.main:handler:%s" % U(h.type), "ends in a non-zero exit", repo.loc(fn, h))
+            elif not calls or set(calls) <= {"print", "str", "format"}:
+                c.finding("assembler.main:handler:%s" % U(h.type), "handler calls %s" % calls, "the %s handler does not terminate the command" % U(h.type), repo.loc(fn, h))
+            else:
+                c.undecided("assembler.main:handler:%s" % U(h.type), "handler-shape-not-recognised", str(calls), repo.loc(fn, h))
         ex = [n for n in ast.walk(te.node) if isinstance(n, ast.Call) and U(n.func) == "sys.exit"]
         codes = [try_fold(x.args[0]) if x.args else 0 for x in ex]
         last = body_without_doc(te.node)[-1]
         c.check(bool(ex) and all(isinstance(k, int) and k != 0 for k in codes) and isinstance(last, ast.Expr) and U(last.value.func) == "sys.exit", "throw_error:exit", "sys.exit(non-zero) on every path", "exit codes %s" % codes,
                 "throw_error exits with %s; a diagnostic must end the command with a non-zero status before any output file is touched" % codes, repo.loc(te, te.node))
-        idx = body_without_doc(fn.node).index(tr)
-        late = all(body_without_doc(fn.node).index(b) > idx for b in blocks)
+        idx = body_without_doc(main_flat).index(tr)
+        late = all(body_without_doc(main_flat).index(b) > idx for b in blocks)
         c.check(late, "assembler.main:order", "files are saved only after process() succeeded", "a save block precedes process()", "assembler.py saves before the program was assembled", where)
 
 
 def cli3(ctx, c):
     """CLI-3 file_util conversions: loops carry every selected file; --files compared with the same normalisation on both sides; --to_bin refusal."""
+    from ..inline import flatten
     repo = ctx.repo
-    fn = repo.func("file_util.py", "main")
-    where = repo.loc(fn, fn.node)
-    # the include list normalisation
-    norm = None
+    fn0 = repo.func("file_util.py", "main")
+    where = repo.loc(fn0, fn0.node)
+    node = flatten(repo, fn0, depth=2)
+    # the include list and its case normalisation
     lst = None
-    for n in ast.walk(fn.node):
-        if isinstance(n, ast.Assign) and isinstance(n.value, ast.IfExp) and "args.files" in U(n.value):
-            lst = U(n.targets[0])
-            norm = [x.func.attr for x in ast.walk(n.value.body) if isinstance(x, ast.Call) and isinstance(x.func, ast.Attribute) and x.func.attr in ("upper", "lower", "strip", "casefold")]
+    norm = []
+    for n in ast.walk(node):
+        if isinstance(n, ast.Assign) and "args.files" in U(n.value) and isinstance(n.targets[0], ast.Name):
+            lst = n.targets[0].id
+            norm = [x.func.attr for x in ast.walk(n.value) if isinstance(x, ast.Call) and isinstance(x.func, ast.Attribute) and x.func.attr in ("upper", "lower", "casefold")]
     if lst is None:
         c.undecided("file_util.main:files", "include-list-not-found", "", where)
         return
-    case_list = [x for x in norm if x in ("upper", "lower", "casefold")]
-    tests = [n for n in ast.walk(fn.node) if isinstance(n, ast.Compare) and len(n.ops) == 1 and isinstance(n.ops[0], (ast.In, ast.NotIn)) and U(n.comparators[0]) == lst]
+    case_list = sorted(set(norm))
+    tests = [n for n in ast.walk(node) if isinstance(n, ast.Compare) and len(n.ops) == 1 and isinstance(n.ops[0], (ast.In, ast.NotIn)) and U(n.comparators[0]) == lst]
     c.floor("--files membership tests", len(tests), 3)
-    # local assignments feeding the tested name
-    for t in tests:
-        lhs = t.left
-        chain = [x.func.attr for x in ast.walk(lhs) if isinstance(x, ast.Call) and isinstance(x.func, ast.Attribute)]
-        if isinstance(lhs, ast.Name) or any(isinstance(x, ast.Name) for x in ast.walk(lhs)):
-            for nm in [x.id for x in ast.walk(lhs) if isinstance(x, ast.Name)]:
-                for a in ast.walk(fn.node):
-                    if isinstance(a, ast.Assign) and U(a.targets[0]) == nm and a.lineno < t.lineno:
-                        chain += [x.func.attr for x in ast.walk(a.value) if isinstance(x, ast.Call) and isinstance(x.func, ast.Attribute)]
-        case_lhs = sorted({x for x in chain if x in ("upper", "lower", "casefold")})
-        good = case_lhs == sorted(set(case_list))
-        c.check(good, "file_util.main:files@%d" % (tests.index(t) + 1), "both sides %s-cased" % (case_list or ["not"]), "list %s-cased, stored name %s-cased" % (case_list, case_lhs or "not"),
-                "file_util compares the stored file name (%s) with the --files list (%s): names differing only in letter case do not match" % (case_lhs or "as is", case_list), repo.loc(fn, t))
+
+    def case_chain(expr, depth=0):
+        chain = [x.func.attr for x in ast.walk(expr) if isinstance(x, ast.Call) and isinstance(x.func, ast.Attribute) and x.func.attr in ("upper", "lower", "casefold")]
+        if depth < 3:
+            for nm in {x.id for x in ast.walk(expr) if isinstance(x, ast.Name)}:
+                for a_ in ast.walk(node):
+                    if isinstance(a_, ast.Assign) and isinstance(a_.targets[0], ast.Name) and a_.targets[0].id == nm and getattr(a_, "lineno", 0) <= getattr(expr, "lineno", 10 ** 9):
+                        chain += case_chain(a_.value, depth + 1)
+        return chain
+    for i, t in enumerate(tests):
+        case_lhs = sorted(set(case_chain(t.left)))
+        c.check(case_lhs == case_list, "file_util.main:files@%d" % (i + 1), "both sides %s-cased" % (case_list or ["not"]), "list %s-cased, stored name %s-cased" % (case_list, case_lhs or "not"),
+                "file_util compares the stored file name (%s) with the --files list (%s): names differing only in letter case do not match" % (case_lhs or "as is", case_list),
+                "file_util.py:%d" % getattr(t, "lineno", 0))
     # conversion loops
     for sw in ("to_cas", "to_dsk"):
-        blk = next((n for n in ast.walk(fn.node) if isinstance(n, ast.If) and U(n.test) == "args.%s" % sw), None)
+        blk = next((n for n in ast.walk(node) if isinstance(n, ast.If) and U(n.test) == "args.%s" % sw), None)
         if blk is None:
-            c.finding("file_util.main:%s" % sw, "switch not handled", "file_util has no block for --%s" % sw, where)
+            c.undecided("file_util.main:%s" % sw, "switch-block-not-found", "", where)
             continue
         loops = [n for n in blk.body if isinstance(n, ast.For)]
-        good = False
-        if len(loops) == 1:
-            lp = loops[0]
-            it = U(lp.iter)
-            tv = [U(e) for e in lp.target.elts] if isinstance(lp.target, ast.Tuple) else [U(lp.target)]
-            adds = _calls(lp, ".add_coco_file")
-            good = re.fullmatch(r"enumerate\(virtual_file\.list_files\(\)\)|virtual_file\.list_files\(\)", it) is not None and len(adds) == 1 and U(adds[0].args[0]) == tv[-1]
-            # the add is only conditional on the --files filter
-            conds = [n for n in ast.walk(lp) if isinstance(n, ast.If)]
-            good = good and all(lst in U(x.test) for x in conds)
-        c.check(good, "file_util.main:%s:loop" % sw, "every listed file, in order, is added itself (filtered by --files only)", "loop shape changed",
-                "file_util --%s does not add each file of the source listing, in order, to the target" % sw, repo.loc(fn, blk))
+        wb = "file_util.py:%d" % getattr(blk, "lineno", 0)
+        if len(loops) != 1:
+            c.undecided("file_util.main:%s:loop" % sw, "loop-not-found", "", wb)
+            continue
+        lp = loops[0]
+        it = U(lp.iter)
+        # resolve a local holding the listing
+        m = re.fullmatch(r"enumerate\((\w+)(, start=\d+)?\)|(\w+)", it)
+        if m and (m.group(1) or m.group(3)):
+            nm = m.group(1) or m.group(3)
+            for a_ in ast.walk(node):
+                if isinstance(a_, ast.Assign) and U(a_.targets[0]) == nm:
+                    it = it.replace(nm, U(a_.value))
+        tv = [U(e) for e in lp.target.elts] if isinstance(lp.target, ast.Tuple) else [U(lp.target)]
+        adds = _calls(lp, ".add_coco_file")
+        whole = re.fullmatch(r"enumerate\(\w+\.list_files\(\)(, start=\d+)?\)|\w+\.list_files\(\)", it) is not None
+        if not whole and re.search(r"\[1:\]|\[:-1\]|reversed|sorted|\[::", it):
+            c.finding("file_util.main:%s:loop" % sw, "iterates %s" % it, "file_util --%s iterates %s instead of the whole source listing in order" % (sw, it), wb)
+        elif not whole or not adds:
+            c.undecided("file_util.main:%s:loop" % sw, "loop-shape-not-recognised", it, wb)
+        else:
+            c.check(len(adds) == 1 and U(adds[0].args[0]) == tv[-1], "file_util.main:%s:loop" % sw, "every listed file, in order, is added itself", "adds %s" % [U(a_.args[0]) for a_ in adds],
+                    "file_util --%s adds %s instead of the file it is iterating over" % (sw, [U(a_.args[0]) for a_ in adds]), wb)
         saves = _calls(blk, ".save_virtual_file")
-        c.check(len(saves) == 1 and not any(isinstance(p, ast.For) for p in ast.walk(blk) if any(s is x for x in ast.walk(p) for s in saves) and isinstance(p, ast.For)),
-                "file_util.main:%s:save" % sw, "saved once after the loop", "save inside the loop / missing", "file_util --%s does not save once after adding all files" % sw, repo.loc(fn, blk))
-    blk = next((n for n in ast.walk(fn.node) if isinstance(n, ast.If) and U(n.test) == "args.to_bin"), None)
+        in_loop = [s_ for s_ in saves if any(s_ is x for x in ast.walk(lp))]
+        if len(saves) == 1 and not in_loop:
+            c.ok("file_util.main:%s:save" % sw, "saved once after the loop", wb)
+        elif in_loop or not saves:
+            c.finding("file_util.main:%s:save" % sw, "save inside the loop / missing", "file_util --%s does not save once after adding all files" % sw, wb)
+        else:
+            c.undecided("file_util.main:%s:save" % sw, "save-shape-not-recognised", "", wb)
+    blk = next((n for n in ast.walk(node) if isinstance(n, ast.If) and U(n.test) == "args.to_bin"), None)
     if blk is not None:
-        g = CFG(ast.FunctionDef(name="b", args=fn.node.args, body=blk.body, decorator_list=[], lineno=blk.lineno))
-        tests_ = g.find(lambda k, n: k == "test" and re.fullmatch(r"len\(\w+\) > 1", U(n)) is not None)
+        g = CFG(ast.FunctionDef(name="b", args=node.args, body=blk.body, decorator_list=[], lineno=blk.lineno))
+        tests_ = g.find(lambda k, n: k == "test" and re.fullmatch(r"len\(\w+\) (>|>=|!=) \d+", U(n)) is not None)
         adds = g.find(lambda k, n: k == "stmt" and ".add_coco_file(" in U(n))
         savs = g.find(lambda k, n: k == "stmt" and ".save_virtual_file(" in U(n))
-        ok = bool(tests_) and all(x not in g.reachable(avoid_edges=[(t, False) for t in tests_]) for x in adds + savs)
-        exits = [n for n in ast.walk(blk) if isinstance(n, ast.If) and re.fullmatch(r"len\(\w+\) > 1", U(n.test)) is not None]
-        code_ok = bool(exits) and any(isinstance(x, ast.Call) and U(x.func) == "sys.exit" and x.args and try_fold(x.args[0]) not in (0, None) for x in ast.walk(exits[0]))
-        c.check(ok and code_ok, "file_util.main:to_bin:refusal", "more than one file: exit non-zero before any add/save", "refusal missing or after the save",
-                "file_util --to_bin must refuse an image holding more than one file before adding or saving anything", repo.loc(fn, blk))
-    # ESC-3: the outer handler reports and exits non-zero
-    tr = next((n for n in body_without_doc(fn.node) if isinstance(n, ast.Try)), None)
+        wb = "file_util.py:%d" % getattr(blk, "lineno", 0)
+        if not tests_:
+            c.undecided("file_util.main:to_bin:refusal", "count-test-not-recognised", "", wb)
+        else:
+            t0 = g.nodes[tests_[0]][2]
+            k = try_fold(t0.comparators[0])
+            op = type(t0.ops[0]).__name__
+            refuses_from = k + 1 if op == "Gt" else (k if op == "GtE" else None)
+            ok = all(x not in g.reachable(avoid_edges=[(t, False) for t in tests_]) for x in adds + savs) and g.only_raises_after(tests_[0], True)
+            if refuses_from is None:
+                c.undecided("file_util.main:to_bin:refusal", "count-test-form", U(t0), wb)
+            else:
+                c.check(ok and refuses_from == 2, "file_util.main:to_bin:refusal", "more than one file: exit before any add/save", "refuses from %s files on; dominated: %s" % (refuses_from, ok),
+                        "file_util --to_bin must refuse an image holding more than one file before adding or saving anything (refuses from %s files, refusal dominates add/save: %s)" % (refuses_from, ok), wb)
+            exits = [x for x in ast.walk(blk) if isinstance(x, ast.Call) and U(x.func) == "sys.exit"]
+            codes = [try_fold(x.args[0]) if x.args else 0 for x in exits]
+            if exits:
+                c.check(all(cd not in (0, None) for cd in codes), "file_util.main:to_bin:exit-code", "non-zero exit", "exit codes %s" % codes, "file_util --to_bin refuses with exit code %s" % codes, wb)
+    tr = next((n for n in body_without_doc(node) if isinstance(n, ast.Try)), None)
     if tr is not None:
         for h in tr.handlers:
             prints = any(isinstance(x, ast.Call) and U(x.func) == "print" for x in ast.walk(h))
             ex = [try_fold(x.args[0]) if x.args else 0 for x in ast.walk(h) if isinstance(x, ast.Call) and U(x.func) == "sys.exit"]
-            c.check(prints and ex and all(e not in (0, None) for e in ex), "file_util.main:handler", "reports the error and exits non-zero", "prints=%s exit=%s" % (prints, ex),
-                    "file_util's error handler does not report the failure with a non-zero exit", repo.loc(fn, h))
+            if prints and ex:
+                c.check(all(e not in (0, None) for e in ex), "file_util.main:handler", "reports the error and exits non-zero", "exit codes %s" % ex,
+                        "file_util's error handler exits with %s" % ex, "file_util.py:%d" % h.lineno)
+            elif not prints and not ex and all(isinstance(x, ast.Pass) for x in h.body):
+                c.finding("file_util.main:handler", "errors swallowed", "file_util's error handler neither reports nor exits", "file_util.py:%d" % h.lineno)
+            else:
+                c.undecided("file_util.main:handler", "handler-shape-not-recognised", "", "file_util.py:%d" % h.lineno)
 
 
 READERS = {"CassetteFile": ("list_files", "read_file", "read_blocks", "read_coco_file_name", "skip_to_sequence"),
